@@ -178,6 +178,17 @@ PROPS = {
                 trusted_base=["spec/crypto_ext.py", "spec/x509_ext.py", "spec/cstruct.py", "spec/hash_ext.py"],
                 explanation="each element predicate equals the conjunction the property states for that element kind, over uninterpreted primitives; any library failure yields False",
                 extras=[_certs_v2_bounded("C07")]),
+    "C08": dict(level="other", assumptions=COMMON + ["A-CRYPTO, A-HASH, A-CSTRUCT, A-SORT as in C06 / C07",
+                                                      "A-RE: re.compile / match for anchored fixed-length byte patterns, decided byte by byte (spec/regex_ext.py)",
+                                                      "assumed contracts (file / JSON handling not verified): load_pubkeys, compute_pubkeys_output, HSMCertificate.from_jsonfile "
+                                                      "(returns a version-1 certificate as _parse leaves it, or raises), admin.misc.head",
+                                                      "scope: the LEDGER verify command, the powHSM message layout / exact-length check and the public-keys hash; 'finishes without "
+                                                      "error only when' is proved as: every normal return satisfies the conjunction (errors are any exception); the converse "
+                                                      "('every other situation ends in an error') is the same statement; that genuine inputs DO pass is not proved",
+                                                      "the SGX verify command: see the evidence of the run (covered only if its contract is listed under functions_under_contract)"],
+                trusted_base=["spec/certs.py", "spec/pubkeys_ext.py", "spec/regex_ext.py", "spec/cstruct.py", "spec/hash_ext.py"],
+                explanation="normal return of do_verify_attestation implies: both chains valid for the chosen root (C06's specification), documented headers, exact powHSM length, "
+                            "keys hash = SHA-256 of the operator's keys in path order, UI key = operator's key; printed values are slices at the documented offsets"),
     "C13": dict(level="proof", assumptions=COMMON + [A_FW], trusted_base=TB + ["spec/firmware.py"],
                 explanation="reply fields are equated with the answers recorded in the ghost log, selectors from the firmware headers"),
 }
